@@ -363,6 +363,8 @@ Fixpoint kubectl_action (l : list str) : option (str * list str) :=
   end.
 Definition KC_ATTACH : list N := [99; 110; 102; 115; 118].   (* "cnfsv" *)
 Definition KC_BOOLS : list N := [105; 116; 113].              (* "itq" *)
+Fixpoint kc_bool_run (cs : str) (k : nat) : nat :=     (* index of the first letter after "-" that is not a boolean one, or the length *)
+  match cs with c :: r => if mem_ch c KC_BOOLS then kc_bool_run r (S k) else k | [] => k end.
 (* the first -- that is not the value of a flag *)
 Fixpoint after_ddash (l : list str) : option (list str) :=
   match l with
@@ -370,8 +372,9 @@ Fixpoint after_ddash (l : list str) : option (list str) :=
   | t :: r =>
       if is "--" t then Some r
       else if dash t && negb (has_eq t) && negb (mem_str t KUBECTL_EXEC_BOOL_FLAGS) then
-        if negb (starts "--" t) && Nat.ltb 2 (length t) && mem_ch (nth 1 t 0) KC_ATTACH then after_ddash r
-        else if negb (starts "--" t) && forallb (fun c => mem_ch c KC_BOOLS) (tl' t) then after_ddash r
+        (* short cluster: boolean letters, then the first other letter takes the rest of the word or - as the last
+           letter - the next word; a long flag takes the next word *)
+        if negb (starts "--" t) && negb (Nat.eqb (kc_bool_run (tl' t) 1) (length t - 1)) then after_ddash r
         else match r with [] => None | _ :: r' => after_ddash r' end
       else after_ddash r
   end.
